@@ -32,6 +32,9 @@ var c17MsgTexts = []string{
 	`{"jsonrpc":"2.0","id":3,"method":"big","params":["` + strings.Repeat("x", 5000) + `"]}`,
 	`{"jsonrpc":"2.0","id":4,"method":"uni","params":["üé\n\"\\   😀 \u0000"]}`,
 	`{"jsonrpc":"2.0","id":5,"error":{"code":-32000,"message":"boom"}}`,
+	// numbers no float64 holds exactly (wei amounts, nanosecond nonces, 64-bit ids)
+	`{"jsonrpc":"2.0","id":9007199254740993,"error":{"code":-32000,"message":"low balance","data":{"wei":1234567890123456789012,"nonce":1700000000000000001}}}`,
+	`{"jsonrpc":"2.0","id":7,"result":{"balance":123456789012345678901234567890,"nonce":9007199254740993}}`,
 }
 
 func c17Msgs(idx []int) []*jsonrpc2.Message {
@@ -41,18 +44,49 @@ func c17Msgs(idx []int) []*jsonrpc2.Message {
 		if err != nil {
 			panic(err)
 		}
+		// what must arrive is what the *text* says, not what the library's own decoding of it
+		// (which is under test) made of it
+		c17ExpectMu.Lock()
+		c17Expect[m] = c17NormText([]byte(c17MsgTexts[i]))
+		c17ExpectMu.Unlock()
 		out = append(out, m)
 	}
 	return out
+}
+
+var c17Expect = map[*jsonrpc2.Message]string{}
+var c17ExpectMu sync.Mutex
+
+func c17NormText(b []byte) string {
+	var v interface{}
+	d := json.NewDecoder(bytes.NewReader(b))
+	d.UseNumber()
+	d.Decode(&v)
+	if m, ok := v.(map[string]interface{}); ok {
+		// members the message type leaves out when empty
+		if p, ok := m["params"]; ok && p == nil {
+			delete(m, "params")
+		}
+	}
+	out, _ := json.Marshal(v)
+	return string(out)
 }
 
 func c17Norm(m *jsonrpc2.Message) string {
 	if m == nil {
 		return "<nil>"
 	}
+	c17ExpectMu.Lock()
+	exp, ok := c17Expect[m]
+	c17ExpectMu.Unlock()
+	if ok {
+		return exp
+	}
 	b, _ := json.Marshal(m)
 	var v interface{}
-	json.Unmarshal(b, &v)
+	d := json.NewDecoder(bytes.NewReader(b))
+	d.UseNumber() // (numbers compared digit by digit, not as float64)
+	d.Decode(&v)
 	b, _ = json.Marshal(v)
 	return string(b)
 }
@@ -66,7 +100,7 @@ func c17Seqs(thorough bool) [][]int {
 			out = append(out, []int{a, b})
 		}
 	}
-	out = append(out, []int{0, 1, 4}, []int{1, 0, 3, 4}, []int{4, 4, 4, 4}, []int{0, 2, 0})
+	out = append(out, []int{0, 1, 4}, []int{1, 0, 3, 4}, []int{4, 4, 4, 4}, []int{0, 2, 0}, []int{5}, []int{6}, []int{5, 6, 0}, []int{1, 5})
 	if thorough {
 		for a := 0; a < 5; a++ {
 			for b := 0; b < 5; b++ {
@@ -418,7 +452,7 @@ func (p *wsPair) close() {
 func c17WSChunks(kind, dir string, shard, nshards int) vh.Unit {
 	name := fmt.Sprintf("ws-%s/%s/%d", kind, dir, shard)
 	return vh.Unit{Name: name, Run: func(u *vh.U) {
-		seqs := [][]int{{0}, {1}, {4}, {0, 1}, {1, 0}, {0, 4, 1}, {3, 0}, {2}, {0, 2, 4}, {0, 0, 0, 0}}
+		seqs := [][]int{{0}, {1}, {4}, {0, 1}, {1, 0}, {0, 4, 1}, {3, 0}, {2}, {0, 2, 4}, {0, 0, 0, 0}, {5, 6}}
 		for si, seq := range seqs {
 			if si%nshards != shard {
 				continue
@@ -654,6 +688,106 @@ func c17Writers(bound int) vh.Unit {
 	}}
 }
 
+// Real sockets: what was written before Close arrives, however much is still on its way when the
+// writer closes (6 MB through loopback TCP, a reader that is slower than the writer), for both
+// WebSocket codecs in both directions. The in-memory connections above have no socket buffers and
+// no close semantics of their own; the codecs' Close runs against the kernel's here.
+func c17TCPCloseAfterBurst() vh.Unit {
+	return vh.Unit{Name: "tcp/close-right-after-a-burst", Run: func(u *vh.U) {
+		const n, size = 400, 16 << 10
+		for _, kind := range []string{"gorilla", "gobwas"} {
+			for _, dir := range []string{"client-to-server", "server-to-client"} {
+				ln, err := net.Listen("tcp", "127.0.0.1:0")
+				if err != nil {
+					u.R.Infra = err.Error()
+					return
+				}
+				serverSide := make(chan jsonrpc2.Codec, 1)
+				srv := &http.Server{Handler: http.HandlerFunc(func(w http.ResponseWriter, r *http.Request) {
+					var c jsonrpc2.Codec
+					var err error
+					if kind == "gorilla" {
+						c, err = (&gorillacodec.Upgrader{}).Upgrade(r, w, nil)
+					} else {
+						c, err = (&gobwascodec.Upgrader{}).Upgrade(r, w, nil)
+					}
+					if err == nil {
+						serverSide <- c
+					}
+				})}
+				go srv.Serve(ln)
+				ctx, cancel := context.WithTimeout(context.Background(), 2*time.Minute)
+				var client jsonrpc2.Codec
+				if kind == "gorilla" {
+					client, err = gorillacodec.WebSocketDial(ctx, "ws://"+ln.Addr().String()+"/")
+				} else {
+					client, err = gobwascodec.WebSocketDial(ctx, "ws://"+ln.Addr().String()+"/")
+				}
+				cancel()
+				if err != nil {
+					srv.Close()
+					u.Violate("tcp/handshake-failed", fmt.Sprintf("%s: %v", kind, err), nil)
+					return
+				}
+				var server jsonrpc2.Codec
+				select {
+				case server = <-serverSide:
+				case <-time.After(2 * time.Minute):
+					srv.Close()
+					u.Violate("tcp/handshake-failed", kind+": upgrade never completed", nil)
+					return
+				}
+				wr, rd := client, server
+				if dir == "server-to-client" {
+					wr, rd = server, client
+				}
+				payload := strings.Repeat("y", size)
+				werr := make(chan error, 1)
+				go func() {
+					for i := 0; i < n; i++ {
+						m, _ := vh.ParseMessage(fmt.Sprintf(`{"jsonrpc":"2.0","id":%d,"method":"m","params":[%q]}`, i, payload))
+						if err := wr.WriteMessage(m); err != nil {
+							werr <- fmt.Errorf("write %d: %v", i, err)
+							return
+						}
+					}
+					werr <- wr.Close() // at once: most of it is still in the socket buffers
+				}()
+				got := 0
+				var rerr error
+				for got < n {
+					m, err := rd.ReadMessage()
+					if err != nil {
+						rerr = err
+						break
+					}
+					if string(m.ID) != fmt.Sprint(got) {
+						rerr = fmt.Errorf("message %d carries id %s", got, m.ID)
+						break
+					}
+					got++
+					if got%8 == 0 {
+						time.Sleep(time.Millisecond) // a reader slower than the writer
+					}
+				}
+				we := <-werr
+				rd.Close()
+				srv.Close()
+				u.R.Evaluations++
+				u.R.States++
+				u.R.Transitions += int64(got)
+				u.R.Traces++
+				u.Observe(fmt.Sprintf("tcp %s %s complete=%v", kind, dir, got == n))
+				if got != n {
+					u.Violate("tcp/"+kind+"/written-messages-lost-on-close", fmt.Sprintf("%s, %s: %d messages of %d kB written, then Close (write side: %v); the reader got %d and then: %v", kind, dir, n, size>>10, we, got, rerr), nil)
+					return
+				}
+			}
+		}
+		u.Sample("400 x 16 kB over loopback TCP, Close right after the last write, reader pausing 1 ms every 8 messages")
+	}}
+}
+
 func init() {
 	vh.Register(&vh.Check{
 		ID: "C17", Level: "model_checking",
@@ -692,7 +826,7 @@ func init() {
 			if tier == "thorough" {
 				bound = 3
 			}
-			us = append(us, c17StreamWriters(2), c17Writers(bound))
+			us = append(us, c17StreamWriters(2), c17Writers(bound), c17TCPCloseAfterBurst())
 			return us
 		},
 	})
